@@ -418,3 +418,10 @@ UNITS += [b64_tail]
 # Url::parseQuery(Url::params(d)) = d: the order-of-operations unit lives with the HTTP units
 from units.C09 import parse_query as _pq
 UNITS += [_pq]
+
+# replay: where the trace recipe of a unit does not reproduce (or there is none) the driver's battery runs on the real library: Base64/hex for every length 0..400 (RFC text,
+# round trip, whitespace interleaved), all malformed Base64 strings up to 6 characters over {A = - space LF /}, odd-length hex, percent-encoding of every byte in both modes,
+# parseQuery(params(d)) with reserved characters, SHA-1 for every length 0..260 against a FIPS 180-4 reference
+_bat = replay.battery('C15/driver.cpp', ['battery'])
+for _u in UNITS:
+    _u.replay = replay.first_of(_u.replay, _bat) if _u.replay else _bat
